@@ -355,10 +355,62 @@ def base_scope_lookups(ctx):
     ctx.floor("R06.8", "lookups on base-class scopes", n, 4)
 
 
+def literal_operator_recorded(ctx):
+    """R06.9: a user-defined literal is printed as value + suffix of the literal operator recorded in the expression
+    (`_u._literal._operator`); with a null operator the suffix is silently dropped and `T<12_x>` is printed as `T<12>`.
+    A contradiction rule: the pointer handed to CPPExpression::literal()/raw_literal() must not be a local that is known
+    to be null on every path to the call.  (F-C06g: the raw fallback passed `instance` - necessarily null there - instead
+    of `raw_instance`.)"""
+    db = ctx.db
+    from . import gates as G
+    ctx.rule("R06.9", "the literal operator passed to CPPExpression::literal()/raw_literal() is not a local pointer that is null on every path reaching the call")
+    n = 0
+    for f in db.functions:
+        if "/cppparser/" not in f.file or "bison" in f.file:
+            continue
+        for c in f.walk():
+            if c.get("k") != "call" or c.get("f") not in ("CPPExpression::literal", "CPPExpression::raw_literal") or not c.get("a"):
+                continue
+            n += 1
+            arg = c["a"][-1]
+            r = local_ref(arg)
+            inst = "%s|%s(%s)" % (f.name, callee_short(c), show(arg))
+            if r is None:
+                ctx.ob("R06.9", inst, (strip_casts(peel(arg)) or {}).get("k") != "nullp", f.loc(c), "operator argument `%s`" % show(arg))
+                continue
+            d = r["d"]
+            cfg = f.cfg
+            lc = cfg.locate(c)
+            nonnull_edges = G.edges_where(f, G.local_is_null(d, null=False))
+            # blocks that give the local a value that is not the null literal
+            setters = []
+            null_init = False
+            for y in f.walk():
+                t = assigned_target(y)
+                lr = local_ref(t[0]) if t else None
+                if lr is not None and lr.get("d") == d and (strip_casts(peel(t[1])) or {}).get("k") != "nullp":
+                    setters.append(y)
+                if y.get("k") == "decls":
+                    for dd in y["d"]:
+                        if dd.get("d") == d and "init" in dd and (strip_casts(peel(dd["init"])) or {}).get("k") == "nullp":
+                            null_init = True
+            # the call can be reached with a non-null value if: (a) from a setter, or from a non-null edge's target, the
+            # call is reachable without crossing an edge that establishes `local == nullptr`
+            null_edges = G.edges_where(f, G.local_is_null(d, null=True))
+            starts = [cfg.locate(y)[0] for y in setters if cfg.locate(y)]
+            starts += [cfg.blocks[b].succs[i] for (b, i) in nonnull_edges if cfg.blocks[b].succs[i] is not None]
+            if not null_init:
+                starts.append(cfg.entry)
+            can = lc is None or any(lc[0] in cfg.reachable(s, cut_edges=null_edges) for s in starts)
+            ctx.ob("R06.9", inst, can, f.loc(c), "`%s` %s at this call" % (show(arg), "may be non-null" if can else "is null on EVERY path: the literal loses its suffix"))
+    ctx.floor("R06.9", "constructions of user-defined-literal expressions", n, 2)
+
+
 def run(ctx):
     db = ctx.db
     nesting_tests(ctx)
     base_scope_lookups(ctx)
+    literal_operator_recorded(ctx)
     rebuild_rules(ctx, "R06.5")
     changed_flag_rules(ctx, "R06.6")
     ctx.rule("R06.1", "every field a (non-copy) constructor initialises from a parameter is read by the class's structural is_less() and is_equal()")
